@@ -657,16 +657,10 @@ theorem invalidation_after_acquire_script_reaches_monitor (s : Sys) (v i : Nat)
     ((next (next s (.acq v i)) (.extdel i)).hs v).csc i = true ∧
     ((next (next s (.acq v i)) (.extdel i)).hs v).mons i = .running ∧
     ((next (next (next s (.acq v i)) (.extdel i)) (.mon v i)).hs v).mons i = .exited := by
-  have h1 : next s (.acq v i) = { s with regs := upd s.regs i (some v),
-      hs := upd s.hs v { s.hs v with mons := upd (s.hs v).mons i .running, acquired := (s.hs v).acquired + 1,
-                                     csc := upd (s.hs v).csc i false } } := by
-    simp only [next, hidle, hi, and_self, if_true, hfree, acqScript]
-  rw [h1]
-  refine ⟨by simp [upd], by simp [next, signalCsc, upd], by simp [next, signalCsc, upd], ?_⟩
-  simp only [next, signalCsc, upd, if_true, delScript, extendScript]
+  have hg : (s.hs v).mons i = Mon.idle ∧ i < s.n := ⟨hidle, hi⟩
   by_cases hc : (s.hs v).cancelled = true
-  · simp [hc, upd]
-  · simp [hc, upd, setH]
+  · simp [next, hg, hfree, acqScript, signalCsc, upd, delScript, extendScript, hc]
+  · simp [next, hg, hfree, acqScript, signalCsc, upd, delScript, extendScript, hc, setH]
 
 /-! ### 6b. key names round-trip for ALL names -/
 open Rv.Lock.KeyName in
